@@ -365,7 +365,40 @@ namespace vh
             o.ints("dfs", idx(im.dfs_indices()));
             o.ints("bfs", idx(im.bfs_indices()));
             o.ints("lev", idx(im.bfs_levels()));
+            if (n >= cert_threshold)
+            {
+                // untrusted certificates for the linear-time form of the order contracts on large worlds:
+                // inverse permutations and the level of each node (TLC verifies them before using them)
+                auto inverse = [this](const auto& v)
+                {
+                    std::vector<long long> inv(n, -1);
+                    for (size_t k = 0; k < v.size() && k < n; ++k)
+                        if (v[k] < n)
+                            inv[v[k]] = static_cast<long long>(k);
+                    return inv;
+                };
+                auto dpos = inverse(im.dfs_indices());
+                auto bpos = inverse(im.bfs_indices());
+                std::vector<long long> blev(n, 0);
+                const auto& lv = im.bfs_levels();
+                for (size_t i = 0; i < n; ++i)
+                {
+                    // largest k (1-based) with lev[k] <= bpos[i]
+                    size_t lo = 0, hi = lv.size();
+                    while (lo + 1 < hi)
+                    {
+                        size_t mid = (lo + hi) / 2;
+                        if (static_cast<long long>(lv[mid]) <= bpos[i])
+                            lo = mid;
+                        else
+                            hi = mid;
+                    }
+                    blev[i] = static_cast<long long>(lo + 1);
+                }
+                o.ints("dpos", dpos).ints("bpos", bpos).ints("blev", blev);
+            }
         }
+        size_t cert_threshold = 3000;
 
         int dsc = 0;  // grid scale exponent (distances are integers times 2^dsc)
 
